@@ -235,11 +235,13 @@ def main():
             seen = set()
             rec["viol"] = []
             xy = tpl.coords_witness(m)
+            fempty = m.eval(z3.Int("fempty_idx"), model_completion=True).as_long()
+            fempty = fempty if any("fempty_idx" in str(a) for a in eng.solver.assertions()) else -1
             for sig, what in probs:
                 if sig in seen:
                     continue
                 seen.add(sig)
-                rec["viol"].append({"sig": sig, "what": what, "toks": toks, "kind": impl[0], "xy": xy})
+                rec["viol"].append({"sig": sig, "what": what, "toks": toks, "kind": impl[0], "xy": xy, "fempty": fempty})
             rec["cls"] += "-COORD"
         return rec
 
@@ -312,9 +314,12 @@ import re
 text = {text!r}
 XY = {xy!r}      # (line, column) of token k; token k is the one lexed under file name f<k>.c
 MUST_HAVE = {must!r}
+EMPTY = {empty!r}  # index of the token lexed under the empty file name, or -1
 bad = []
 lines = text.split("\\n")
 def tok_of(c):
+    if str(c.file) == "" and EMPTY >= 0:
+        return EMPTY
     m = re.match(r"f(\\d+)\\.c$", str(c.file))
     return int(m.group(1)) if m else None
 def build(n):
@@ -358,7 +363,10 @@ try:
         own(ast)
     RESULT = {{"outcome": "ast", "bad": bad}}
 except ParseError as e:
-    m = re.match(r"^f(\\d+)\\.c:(\\d+):(\\d+): ", str(e))
+    msg = str(e)
+    if EMPTY >= 0 and msg.startswith(":"):
+        msg = "f%d.c" % EMPTY + msg  # located under the empty file name
+    m = re.match(r"^f(\\d+)\\.c:(\\d+):(\\d+): ", msg)
     ok = bool(m) and int(m.group(1)) < len(XY) and [int(m.group(2)), int(m.group(3))] == XY[int(m.group(1))]
     RESULT = {{"outcome": "ParseError", "msg": str(e), "bad": [] if ok or re.match(r"^f\\d+\\.c: ", str(e)) else [["ParseError", str(e)]]}}
 '''
@@ -379,14 +387,15 @@ RESULT = {{"same": a == b, "plain": a[0], "laid_out": b[0]}}
 '''
 
 
-def layout_xy(toks, xy):
-    """every token on its own line at the solver's column, preceded by a linemarker giving the solver's line"""
+def layout_xy(toks, xy, fempty=-1):
+    """every token on its own line at the solver's column, preceded by a linemarker giving the solver's line
+    (and the file name f<i>.c, or the empty file name for token `fempty`)"""
     out = []
     i = 0
     while i < len(toks):
         t, v = toks[i]
         line, col = xy[i]
-        out.append(f'# {line} "f{i}.c"')
+        out.append(f'# {line} ""' if i == fempty else f'# {line} "f{i}.c"')
         if t == "PPPRAGMA":
             s = "#pragma"
             if i + 1 < len(toks) and toks[i + 1][0] == "PPPRAGMASTR":
@@ -409,9 +418,9 @@ def replay(rp, v):
         if not isinstance(r, dict) or "same" not in r:
             return False, r
         return (not r["same"]), f"parsing the same tokens under this layout gives a different result than on one line: {r}"
-    text = layout_xy(v["toks"], v["xy"])
+    text = layout_xy(v["toks"], v["xy"], v.get("fempty", -1))
     v["text"] = text
-    v["replay_code"] = REPLAY_CODE.format(text=text, must=sorted(MUST_HAVE), xy=[list(p) for p in v["xy"]])
+    v["replay_code"] = REPLAY_CODE.format(text=text, must=sorted(MUST_HAVE), xy=[list(p) for p in v["xy"]], empty=v.get("fempty", -1))
     r = rp.ask(op="exec", code=v["replay_code"])
     if not isinstance(r, dict) or "bad" not in r:
         return False, r
